@@ -1,8 +1,16 @@
 package props
 
 import (
+	"context"
 	"net"
+	"sync"
 	"time"
+
+	"github.com/golang/snappy"
+	"google.golang.org/grpc"
+	"google.golang.org/grpc/metadata"
+
+	"github.com/getlantern/zenodb/common"
 
 	"github.com/getlantern/zenodb"
 	"github.com/getlantern/zenodb/rpc"
@@ -27,4 +35,74 @@ func dialRPC(addr, password string) (rpc.Client, error) {
 			return net.DialTimeout("tcp", addr, timeout)
 		},
 	})
+}
+
+// --- a hand-rolled client: every field of the request message and the credentials are the caller's to choose -----
+
+type rawSnappyConn struct {
+	net.Conn
+	r  *snappy.Reader
+	w  *snappy.Writer
+	mx sync.Mutex
+}
+
+func (sc *rawSnappyConn) Read(p []byte) (int, error) { return sc.r.Read(p) }
+func (sc *rawSnappyConn) Write(p []byte) (int, error) {
+	sc.mx.Lock()
+	defer sc.mx.Unlock()
+	return sc.w.Write(p)
+}
+func (sc *rawSnappyConn) Close() error {
+	sc.mx.Lock()
+	sc.w.Close()
+	sc.mx.Unlock()
+	return sc.Conn.Close()
+}
+
+func dialRawRPC(addr string) (*grpc.ClientConn, error) {
+	return grpc.Dial(addr, grpc.WithInsecure(),
+		grpc.WithDialer(func(addr string, timeout time.Duration) (net.Conn, error) {
+			conn, err := net.DialTimeout("tcp", addr, timeout)
+			if err != nil {
+				return nil, err
+			}
+			return &rawSnappyConn{Conn: conn, r: snappy.NewReader(conn), w: snappy.NewWriter(conn)}, nil
+		}),
+		grpc.WithCodec(rpc.Codec))
+}
+
+// rawRPCQuery sends the given query message on the "query" stream and counts what comes back.
+func rawRPCQuery(cc *grpc.ClientConn, password string, q *rpc.Query) (gotMetaData bool, rows int, err error) {
+	ctx, cancel := context.WithTimeout(context.Background(), 10*time.Second)
+	defer cancel()
+	if password != "" {
+		ctx = metadata.NewOutgoingContext(ctx, metadata.New(map[string]string{rpc.PasswordKey: password}))
+	}
+	stream, err := grpc.NewClientStream(ctx, &rpc.ServiceDesc.Streams[0], cc, "/zenodb/query")
+	if err != nil {
+		return false, 0, err
+	}
+	if err = stream.SendMsg(q); err != nil {
+		return false, 0, err
+	}
+	if err = stream.CloseSend(); err != nil {
+		return false, 0, err
+	}
+	md := &common.QueryMetaData{}
+	if err = stream.RecvMsg(md); err != nil {
+		return false, 0, err
+	}
+	gotMetaData = len(md.FieldNames) > 0 || md.Plan != ""
+	for {
+		result := &rpc.RemoteQueryResult{}
+		if err = stream.RecvMsg(result); err != nil {
+			return gotMetaData, rows, err
+		}
+		if result.EndOfResults {
+			return gotMetaData, rows, nil
+		}
+		if result.Row != nil || result.Key != nil {
+			rows++
+		}
+	}
 }
